@@ -44,7 +44,7 @@ Print Assumptions C14_transform_path_sound.
 (* 2. Transform path with the x-arc-database header (the regexp path of convertSQLToStoragePathsWithHeaderDB):
    the same, for requests on which the converter looks for CTE names whenever the permission check does. *)
 Theorem C14_transform_path_sound_header : forall fx s hdr chk rt text,
-  req_in_grammar s = true -> hdr <> [] -> fast_single_ok (fx_with fx) s = false ->
+  req_in_grammar s = true -> hdr <> [] -> fast_single_ok (fx_single fx) (fx_with fx) s = false ->
   hdr_ctes (fx_with fx) (req_toks s) = cte_names (req_toks s) ->
   gate_gen fx s hdr = OExec chk rt text -> rt = Transformed ->
   text = restore s (toks (subst_segs (req_names s) (hdr_ctes (fx_with fx) (req_toks s)) hdr false (req_segs s)))
@@ -55,7 +55,7 @@ Print Assumptions C14_transform_path_sound_header.
 (* ... and with the repair C14_header_cte_names_same_pattern that hypothesis is gone *)
 Theorem C14_transform_path_sound_header_repaired : forall fx s hdr chk rt text,
   fx_with fx = true ->
-  req_in_grammar s = true -> hdr <> [] -> fast_single_ok true s = false ->
+  req_in_grammar s = true -> hdr <> [] -> fast_single_ok (fx_single fx) true s = false ->
   gate_gen fx s hdr = OExec chk rt text -> rt = Transformed ->
   text = restore s (toks (subst_segs (req_names s) (cte_names (req_toks s)) hdr false (req_segs s)))
   /\ forall r, In r (rewritten_refs (req_names s) (cte_names (req_toks s)) hdr false (req_segs s)) -> covers chk r = true.
@@ -85,7 +85,7 @@ Proof. vm_compute. repeat split. Qed.
 
 Example C14_guard_satisfiable_header :
   let s := bs ("SELECT a.host FROM cpu a FULL OUTER JOIN (SELECT * FROM mem) m ON a.id = m.id /* x */ WHERE a.tag = 'q'") in
-  req_in_grammar s = true /\ fast_single_ok false s = false /\ hdr_ctes false (req_toks s) = cte_names (req_toks s)
+  req_in_grammar s = true /\ fast_single_ok false false s = false /\ hdr_ctes false (req_toks s) = cte_names (req_toks s)
   /\ gate s (bs "db1") = OExec [(bs "db1", bs "cpu"); (bs "db1", bs "mem")] Transformed
        (bs "SELECT a.host FROM read_parquet('/R/db1/cpu/**/*.parquet', union_by_name=true) a FULL OUTER JOIN (SELECT * FROM read_parquet('/R/db1/mem/**/*.parquet', union_by_name=true)) m ON a.id = m.id   WHERE a.tag = 'q'").
 Proof. vm_compute. repeat split. Qed.
@@ -158,14 +158,14 @@ Proof. vm_compute. reflexivity. Qed.
    the permission check always: after WITH + newline the "CTE reference" is unchecked AND rewritten *)
 Theorem C14_header_cte_refuted :
   let s := bs ("WITH" ++ nl ++ "secret AS (SELECT 1) SELECT * FROM secret") in
-  req_in_grammar s = true /\ pathlike_free s = true /\ fast_single_ok false s = true
+  req_in_grammar s = true /\ pathlike_free s = true /\ fast_single_ok false false s = true
   /\ accepted_unchecked s (bs "db2") Transformed
        (bs ("WITH" ++ nl ++ "secret AS (SELECT 1) SELECT * FROM read_parquet('/R/db2/secret/**/*.parquet', union_by_name=true)")).
 Proof. vm_compute. repeat split. Qed.
 (* ... and the same on the regexp path of the header converter (a literal turns the fast path off) *)
 Theorem C14_header_cte_slow_path_refuted :
   let s := bs ("WITH" ++ nl ++ "secret AS (SELECT 'x') SELECT * FROM secret") in
-  req_in_grammar s = true /\ pathlike_free s = true /\ fast_single_ok false s = false
+  req_in_grammar s = true /\ pathlike_free s = true /\ fast_single_ok false false s = false
   /\ hdr_ctes false (req_toks s) <> cte_names (req_toks s)
   /\ accepted_unchecked s (bs "db2") Transformed
        (bs ("WITH" ++ nl ++ "secret AS (SELECT 'x') SELECT * FROM read_parquet('/R/db2/secret/**/*.parquet', union_by_name=true)"))
@@ -177,7 +177,7 @@ Theorem C14_header_window_clause_refuted :
   req_in_grammar s = true /\ pathlike_free s = true
   /\ accepted_unchecked s (bs "db2") Transformed
        (bs "SELECT * FROM read_parquet('/R/db2/secret/**/*.parquet', union_by_name=true) WINDOW w1 AS (ORDER BY id), secret AS (ORDER BY id)")
-  /\ gate_gen {| fx_with := true; fx_dedup := false; fx_scanner := false; fx_denylist := false; fx_noraw := false; fx_bsq := false |} s (bs "db2")
+  /\ gate_gen {| fx_with := true; fx_dedup := false; fx_scanner := false; fx_denylist := false; fx_noraw := false; fx_bsq := false; fx_single := false |} s (bs "db2")
      = OExec [] Transformed s.
 Proof. vm_compute. repeat split. Qed.
 
@@ -259,6 +259,14 @@ Theorem C16_lateral_newline_rewritten :
   gate s (bs "db1") = OExec [(bs "db1", bs "cpu")] Transformed
        (bs ("SELECT * FROM read_parquet('/R/db1/cpu/**/*.parquet', union_by_name=true) a CROSS JOIN read_parquet('/R/db1/LATERAL/**/*.parquet', union_by_name=true)" ++ nl ++ "(SELECT 1) b")).
 Proof. vm_compute. reflexivity. Qed.
+(* header: the single-table fast path counts "from " and " join " with blanks; a second reference after FROM/JOIN +
+   newline or tab is not counted and stays unrewritten *)
+Theorem C16_fast_path_misses_references :
+  let s := bs ("SELECT * FROM mem a1 WHERE a1.id IN (SELECT id" ++ nl ++ "FROM" ++ nl ++ "mem a2)") in
+  req_in_grammar s = true /\ fast_single_ok false false s = true /\ fast_single_ok true false s = false
+  /\ gate s (bs "db1") = OExec [(bs "db1", bs "mem")] Transformed
+       (bs ("SELECT * FROM read_parquet('/R/db1/mem/**/*.parquet', union_by_name=true) a1 WHERE a1.id IN (SELECT id" ++ nl ++ "FROM" ++ nl ++ "mem a2)")).
+Proof. vm_compute. repeat split. Qed.
 (* measurements whose name starts with pg_ / duckdb_ / information_schema / read_parquet are never rewritten *)
 Theorem C16_skip_prefix_unrewritten :
   let s := bs "SELECT * FROM pg_metrics" in gate s (bs "db1") = OExec [] Transformed s.
